@@ -7,6 +7,7 @@ CONSTANTS
   MaxDup = 1
   MaxBad = 1
   MaxRestart = 1
+  MaxPlain = 1
   Ticks = {4900, 5200, 55000}
   Record = TRUE
   Ver = 0
